@@ -36,7 +36,7 @@ pub fn run_case(c: &Value) -> Value {
     let omit: Vec<&'static str> = c["omit"].as_array().unwrap().iter().map(|s| &*Box::leak(format!("{}{}", if dots { "." } else { "" }, s.as_str().unwrap()).into_boxed_str())).collect();
     let built = std::panic::catch_unwind(std::panic::AssertUnwindSafe(|| {
         let d = mount.Dir(dir);
-        let d = match omit.len() { 0 => d, 1 => d.omit_extensions([omit[0]]), 2 => d.omit_extensions([omit[0], omit[1]]), 3 => d.omit_extensions([omit[0], omit[1], omit[2]]), n => panic!("harness: {n} omit") };
+        let d = match omit.len() { 0 => d, 1 => d.omit_extensions([omit[0]]), 2 => d.omit_extensions([omit[0], omit[1]]), 3 => d.omit_extensions([omit[0], omit[1], omit[2]]), 4 => d.omit_extensions([omit[0], omit[1], omit[2], omit[3]]), n => panic!("harness: {n} omit") };
         let mut oh = Ohkami::with((), ());
         Routing::apply(d, &mut oh);
         oh.test()
